@@ -603,3 +603,135 @@ Proof.
     + exact I.
     + split; [exact I|apply (pi_trace _ HI)].
 Qed.
+
+Lemma pgc_inv c i x : PInv c -> nth_error (p_bag c) i = Some x ->
+  PInv (PConfig (p_new c) (remove_nth i (p_bag c)) (p_threads c) (PEDrop x :: p_trace c)).
+Proof.
+  intros HI Hi. pose proof (nth_error_In _ _ Hi) as Hxin.
+  constructor; simpl.
+  - intros v Hv. pose proof (pi_uniq _ HI v Hv) as H. unfold all_vals in *; simpl. rewrite count_occ_app in *.
+    pose proof (cnt_remove_nth (p_bag c) i x v Hi). lia.
+  - intros v Hin. apply (pi_bound _ HI). unfold all_vals in *; simpl in *.
+    apply in_app_iff in Hin as [Hin|Hin]; apply in_app_iff; [left; eapply In_remove_nth; eauto|auto].
+  - intros e v [<-|Hin] Hv.
+    + injection Hv as <-. apply (pi_bound _ HI). unfold all_vals. apply in_app_iff. auto.
+    + eapply (pi_tbound _ HI); eauto.
+  - intro v. rewrite !pcount_cons. simpl. rewrite dec_eqb.
+    pose proof (cnt_remove_nth (p_bag c) i x v Hi). pose proof (pi_bag _ HI v). lia.
+  - intros t th H. apply pc_ok_mono. apply (pi_pc _ HI); auto.
+  - split; [exact I|apply (pi_trace _ HI)].
+Qed.
+
+Lemma pstep_inv c a c' : PInv c -> pstep c a = Some c' -> PInv c'.
+Proof.
+  intros HI Hs. destruct a as [t ch|i]; simpl in Hs.
+  - eapply pstep_thread_inv; eauto.
+  - destruct (nth_error (p_bag c) i) as [x|] eqn:Hi; [|discriminate]. injection Hs as <-. apply pgc_inv; auto.
+Qed.
+
+Lemma prun_inv s : forall c, PInv c -> PInv (prun c s).
+Proof.
+  induction s as [|a s IH]; intros c H; simpl; auto.
+  apply IH. destruct (pstep c a) as [c'|] eqn:E; auto. eapply pstep_inv; eauto.
+Qed.
+
+Lemma pstep_new c a c' : pstep c a = Some c' -> p_new c' = p_new c.
+Proof.
+  destruct a as [t ch|i]; simpl.
+  - unfold pstep_thread. destruct (nth_error (p_threads c) t) as [th|]; [|discriminate].
+    destruct (p_pc th) as [| | | |v src|v].
+    + destruct (p_prog th) as [|[|k| |] rest]; try discriminate; try (intros [= <-]; reflexivity).
+      destruct (nth_error (p_held th) k); intros [= <-]; reflexivity.
+    + destruct (p_new c); intros [= <-]; reflexivity.
+    + destruct ch as [i|]; [destruct (nth_error (p_bag c) i); [|discriminate]|]; intros [= <-]; reflexivity.
+    + intros [= <-]; reflexivity.
+    + intros [= <-]; reflexivity.
+    + intros [= <-]; reflexivity.
+  - destruct (nth_error (p_bag c) i); [|discriminate]. intros [= <-]; reflexivity.
+Qed.
+
+(* The field New is never written: it has its initial value in every reachable configuration. *)
+Theorem pool_new_constant new progs s : p_new (prun (pinit new progs) s) = new.
+Proof.
+  assert (G : forall s c, p_new (prun c s) = p_new c).
+  { induction s0 as [|a s0 IH]; intro c; simpl; auto.
+    destruct (pstep c a) as [c'|] eqn:E; rewrite IH; auto. eapply pstep_new; eauto. }
+  rewrite G. reflexivity.
+Qed.
+
+(* No step of Get or Put writes a shared plain field: the only plain accesses are reads of New. *)
+Theorem pool_plain_accesses_are_reads c t a : pool_next_access c t = Some a -> a = PlainRead FNew.
+Proof.
+  unfold pool_next_access. destruct (nth_error (p_threads c) t) as [th|]; [|discriminate].
+  destruct (p_pc th); intros [= <-]; reflexivity.
+Qed.
+
+(* ---- ownership ---- *)
+
+Lemma cnt_flat_one (ths : list pthread) t th v :
+  nth_error ths t = Some th -> cnt (thread_vals th) v <= cnt (flat_map thread_vals ths) v.
+Proof.
+  revert t; induction ths as [|x r IH]; intros [|t] H; simpl in *; try discriminate; rewrite count_occ_app.
+  - injection H as ->. lia.
+  - specialize (IH _ H). lia.
+Qed.
+
+Lemma cnt_flat_two (ths : list pthread) t1 t2 th1 th2 v :
+  t1 < t2 -> nth_error ths t1 = Some th1 -> nth_error ths t2 = Some th2 ->
+  cnt (thread_vals th1) v + cnt (thread_vals th2) v <= cnt (flat_map thread_vals ths) v.
+Proof.
+  revert t1 t2; induction ths as [|x r IH]; intros [|t1] [|t2] L H1 H2; simpl in *; try discriminate; try lia;
+    rewrite count_occ_app.
+  - injection H1 as ->. pose proof (cnt_flat_one r t2 th2 v H2). lia.
+  - assert (t1 < t2) as L' by lia. specialize (IH _ _ L' H1 H2). lia.
+Qed.
+
+(* every token is in at most one place, and there at most once *)
+Theorem pool_ownership new progs s v :
+  let c := prun (pinit new progs) s in
+  is_tok v ->
+  cnt (all_vals c) v <= 1 /\
+  (forall t th, nth_error (p_threads c) t = Some th -> In v (thread_vals th) -> ~ In v (p_bag c)) /\
+  (forall t1 t2 th1 th2, t1 <> t2 -> nth_error (p_threads c) t1 = Some th1 -> nth_error (p_threads c) t2 = Some th2 ->
+     In v (thread_vals th1) -> ~ In v (thread_vals th2)).
+Proof.
+  intros c Hv. pose proof (prun_inv s _ (pinit_inv new progs)) as HI. fold c in HI.
+  pose proof (pi_uniq _ HI v Hv) as HU. split; [exact HU|]. unfold all_vals in HU. rewrite count_occ_app in HU. split.
+  - intros t th Hn Hin Hbag. apply cnt_pos_In in Hin, Hbag. pose proof (cnt_flat_one _ _ _ v Hn). lia.
+  - intros t1 t2 th1 th2 N H1 H2 I1 I2. apply cnt_pos_In in I1, I2.
+    destruct (Nat.lt_ge_cases t1 t2) as [L|L].
+    + pose proof (cnt_flat_two _ _ _ _ _ v L H1 H2). lia.
+    + assert (t2 < t1) as L' by lia. pose proof (cnt_flat_two _ _ _ _ _ v L' H2 H1). lia.
+Qed.
+
+(* where the result of every Get comes from (trace newest first: [before] is the past of the event) *)
+Theorem pool_get_source new progs s later e before :
+  p_trace (prun (pinit new progs) s) = later ++ e :: before -> ev_ok new e before.
+Proof.
+  intro E. pose proof (prun_inv s _ (pinit_inv new progs)) as HI.
+  pose proof (pi_trace _ HI) as HT. rewrite pool_new_constant, E in HT. eapply trace_ok_split; eauto.
+Qed.
+
+(* the same, spelled out for the responses of Get *)
+Theorem pool_get_returns new progs s later t v src before :
+  p_trace (prun (pinit new progs) s) = later ++ PERetGet t v src :: before ->
+  match src with
+  | SrcZeroNoNew => new = false /\ v = Zero
+  | SrcNew => new = true /\ (exists k, v = Tok t k) /\
+              exists mid older, before = mid ++ PENew t v :: older /\ forall e, In e older -> ev_val e <> Some v
+  | SrcBag => new = true /\
+              exists mid older, before = mid ++ PETake t v :: older /\
+                pcount (is_take v) older + pcount (is_drop v) older < pcount (is_put v) older
+  end.
+Proof.
+  intro E. pose proof (pool_get_source _ _ _ _ _ _ E) as H. simpl in H. destruct src.
+  - apply in_split in H as (mid & older & ->).
+    assert (E' : p_trace (prun (pinit new progs) s) = (later ++ PERetGet t v SrcBag :: mid) ++ PETake t v :: older).
+    { rewrite E, <- app_assoc. reflexivity. }
+    apply pool_get_source in E'. simpl in E'. destruct E' as (Hn & Hc). split; [exact Hn|]. eauto.
+  - apply in_split in H as (mid & older & ->).
+    assert (E' : p_trace (prun (pinit new progs) s) = (later ++ PERetGet t v SrcNew :: mid) ++ PENew t v :: older).
+    { rewrite E, <- app_assoc. reflexivity. }
+    apply pool_get_source in E'. simpl in E'. destruct E' as (Hn & Hk & Hf). split; [exact Hn|]. split; [exact Hk|]. eauto.
+  - exact H.
+Qed.
